@@ -111,6 +111,19 @@ OPS = [
 ]
 
 
+HISTORIES = [
+    [("insert", "N", [A("n")]), ("set", "B", [A("m")])],
+    [("insert", "N", [A("n")]), ("rename", "B", "R")],
+    [("set", "N", [A("n1"), A("n2")]), ("set", "A", [A("m")])],
+    [("insert", "N", [A("n")]), ("remove", "B")],
+    [("remove", "A"), ("insert", "A", [A("n")])],
+    [("set", "B", [A("n")]), ("set", "B", [A("m1"), A("m2")])],
+    [("insert", "N", [A("n")]), ("insert", "M", [A("m")])],
+    [("rename", "A", "R"), ("set", "R", [A("n")])],
+    [("insert", "N", [A("n")]), ("set", "A", [A("m")]), ("remove", "N")],
+]
+
+
 def join_lines(lines):
     p = []
     for i, l in enumerate(lines):
@@ -130,9 +143,10 @@ def run(tier):
     n = 0
     for lname, doc in LAYOUTS.items():
         toks = render(doc)
-        for op in OPS:
+        for hist in [[op] for op in OPS] + HISTORIES:
+            op = hist[0]
             n += 1
-            label = "%s :: %s" % (lname, op_str(op))
+            label = "%s :: %s" % (lname, " ; ".join(op_str(o) for o in hist))
             pdoc, errs, st, mod = db.parse_deb822(F, toks)
             if pdoc is None or errs != ("abs", "strvec", 0):
                 C.ob("C04/parse", label, False, "the symbolic document does not parse cleanly (%s)" % (errs,))
@@ -146,19 +160,31 @@ def run(tier):
             I = hirai.Interp(F, tm, max_depth=16)
             I.max_recursion = 6
             s0 = hirai.State({}, dict(st.mon), 0).setroot(("T", "para"), para_v)
-            args = [("ref", (("T", "para"),))]
-            if op[0] in ("set", "insert"):
-                args += [symstr.lit(op[1]), join_lines(op[2])]
-            elif op[0] == "remove":
-                args += [symstr.lit(op[1])]
-            else:
-                args += [symstr.lit(op[1]), symstr.lit(op[2])]
+            def call_op(o, state):
+                args = [("ref", (("T", "para"),))]
+                if o[0] in ("set", "insert"):
+                    args += [symstr.lit(o[1]), join_lines(o[2])]
+                elif o[0] == "remove":
+                    args += [symstr.lit(o[1])]
+                else:
+                    args += [symstr.lit(o[1]), symstr.lit(o[2])]
+                return I.inline(F.fn(P + "Paragraph::" + o[0]), args, state)
             try:
-                res = I.inline(F.fn(P + "Paragraph::" + op[0]), args, s0)
+                res = [(OK, None, s0)]
+                for o in hist:
+                    nxt = []
+                    for ctl, v, s in res:
+                        if ctl != OK:
+                            nxt.append((ctl, v, s))
+                        else:
+                            nxt.extend(call_op(o, s))
+                    res = nxt
             except hirai.Violation as e:
                 C.ob("C04/analysis", label, False, str(e))
                 continue
-            want_doc = model_apply(doc, 0, op)
+            want_doc = doc
+            for o in hist:
+                want_doc = model_apply(want_doc, 0, o)
             want = db.text_of_tokens(render(want_doc))
             got = []
             for ctl, v, s in res:
@@ -168,10 +194,10 @@ def run(tier):
                     hh = treemodel.heap_get(s)
                     got.append(symstr.show(symstr.mk(tm.text_of(hh, root))))
             ok = got == [want]
-            C.ob("C04/edit-text", label, ok, "document after the edit prints %r, the list model gives %r" % (got, want), F.fn(P + "Paragraph::" + op[0])["sp"])
+            C.ob("C04/edit-text", label, ok, "document after the edit prints %r, the list model gives %r" % (got, want), F.fn(P + "Paragraph::" + hist[-1][0])["sp"])
             if tm.invalidations:
                 C.ob("C04/iterator-invalidation", label, False, "a child iterator is advanced after the node it last yielded was detached/replaced (rowan continues from that node: iteration stops early)", F.fn(P + "Paragraph::" + op[0])["sp"])
-            if op[0] == "rename" and len(res) == 1 and res[0][0] == OK:
+            if len(hist) == 1 and op[0] == "rename" and len(res) == 1 and res[0][0] == OK:
                 existed = any(r["type"] == "field" and r["key"] == op[1] for r in doc[0])
                 C.ob("C04/rename-result", label, res[0][1] == ("bool", existed), "rename returns %s, expected %s" % (res[0][1], existed))
             # live object reports the same content
@@ -188,7 +214,7 @@ def run(tier):
                 C.ob("C04/live-content", label, live == items_of(want_doc[0]), "items() of the edited paragraph reports %s, the model has %s" % (live, items_of(want_doc[0])))
             if len(C.samples) < 8:
                 C.sample({"layout": lname, "operation": op_str(op), "before": db.text_of_tokens(toks), "after": got})
-    C.floor("C04/edits", n, 60, "layout x operation combinations")
+    C.floor("C04/edits", n, 100, "layout x operation / history combinations")
     check_entry_new(F, C)
     check_ownership(F, C)
     C.assumptions += ["rowan 0.16 semantics as modelled (splice_children detaches replaced children and re-parents inserted ones; SyntaxNodeChildren continues from the previously yielded node)",
